@@ -33,7 +33,7 @@ SPECS = [None, "ID", "Name", ["ID", "Name"], ["Name", "ID"], {"gene": "ID", "exo
 
 def budget(tier):
     if tier == "quick":
-        return {"runs": 1000, "wall": 50, "chunk": 8}
+        return {"runs": 3000, "wall": 50, "chunk": 8}
     return {"runs": 100000, "wall": 1500, "chunk": 8}
 
 
